@@ -6,7 +6,7 @@ From RV.Model Require Import Base Word Limbs Bytes DivRecip DivSmall Redc.
 From RV.Model Require DivRef DivKnuth Shift.
 From RV.Gen Require Import Prim Scalar.
 From RV.Model Require Add Mul UDiv Conv Bits Pow Modular GcdMatrix Gcd.
-From RV.Proofs Require Import BaseFacts PfGenScalar PfGenAdd PfGenMul PfGenDiv PfGenSpecial PfGenCtor PfGenBits PfGenDivRef PfGenLimbs PfGenRedc PfGenKnuth PfGenShift PfGenPow PfGenModular PfGenMatrix PfGenGcd PfGenInvRing.
+From RV.Proofs Require Import BaseFacts PfGenScalar PfGenAdd PfGenMul PfGenDiv PfGenSpecial PfGenCtor PfGenBits PfGenDivRef PfGenLimbs PfGenRedc PfGenKnuth PfGenShift PfGenPow PfGenModular PfGenMatrix PfGenGcd PfGenInvRing PfGenDivTop.
 
 Theorem GenTie_source_equals_model :
   (forall bits, 0 <= bits -> bits + 63 < B -> g_nlimbs bits = Val (nlimbs bits)) /\
@@ -519,6 +519,16 @@ Theorem GenTie_msb : forall bits a,
 Proof. exact g_most_significant_bits_eq. Qed.
 Print Assumptions GenTie_msb.
 
+(* src/algorithms/div/mod.rs: the top-level dispatch algorithms::div.  `let divisor = &mut divisor[..=i]`,
+   `let numerator = if let Some(i) = .. { &mut numerator[..=i] } else { ..; return; }` and
+   `divisor.split_at_mut(n)` are sub-slice views (Prim.subslice), written back at every return
+   (Prim.splice, innermost first); the callees div_nx1 / div_nx2 / div_nxm are the translated ones *)
+Theorem GenTie_div_top : forall n d,
+  Forall inW n -> Forall inW d -> lenZ n + 1 < B -> lenZ d + 1 < B ->
+  g_div n d = Div.div_kernel n d.
+Proof. exact g_div_eq. Qed.
+Print Assumptions GenTie_div_top.
+
 (* the premises are satisfiable and the generated code computes: reciprocal(2^63) = 2^64 - 1 *)
 Example GenTie_nonvacuous :
   g_reciprocal_mg10 (2 ^ 63) = Val (2 ^ 64 - 1) /\ g_mask 65 = Val 1 /\ g_nlimbs 65 = Val 2 /\
@@ -530,6 +540,8 @@ Example GenTie_nonvacuous :
   g_adc_n [2 ^ 64 - 1; 1] [1; 0] 0 = Val (0, [0; 2]) /\
   g_div_nx1_normalized [5; 7] (2 ^ 63) = Val (5, [14; 0]) /\
   g_div_nx1 [5; 7] 3 = Val (0, [6148914691236517207; 2]) /\
+  g_div [5; 7; 0] [3; 0] = Val ([6148914691236517207; 2; 0], [0; 0]) /\
+  g_div [5; 0] [0; 7; 0] = Val ([0; 0], [5; 0; 0]) /\
   g_div_nx2 [5; 7; 1] (2 ^ 64 + 1) = Val (2 ^ 64, [5; 1; 0]) /\
   g_mul_redc 1 [3] [5] [15] 0x1111111111111111 = Val [0] /\
   g_add_nx1 [2 ^ 64 - 1; 2 ^ 64 - 1; 7] 1 = Val (0, [0; 0; 8]) /\
